@@ -104,13 +104,20 @@ def peel(e: Any) -> Any:
 
 
 class Builder:
-    def __init__(self, fn: dict, roles: Dict[int, str], fns: Optional[Dict[str, dict]] = None):
+    def __init__(self, fn: dict, roles: Dict[int, str], fns: Optional[Dict[str, dict]] = None, discs: Optional[Dict[str, int]] = None,
+                 items: Optional[Dict[str, dict]] = None):
         """fn: fact record of the function ({body:{params,tree}}); roles: parameter index -> 'self' | 'str' | 'int';
         fns: resolved def path -> fn record of helper functions that may be inlined (sibling generated impls)."""
         self.fn = fn
         self.roles = roles
         self.fns: Dict[str, dict] = dict(fns or {})
-        self.items: Dict[str, dict] = {}       # nested const / static items by name
+        self.adt = self.fns.pop("__adt__", None)
+        discs = discs or self.fns.pop("__discs__", None)
+        items = items or self.fns.pop("__items__", None)
+        self.fns.pop("__discs__", None)
+        self.fns.pop("__items__", None)
+        self.items: Dict[str, dict] = dict(items or {})       # const / static items by name (nested ones are added by _scan_items)
+        self.discs = discs                      # variant -> discriminant (for `self as <int>`), when the caller knows them
         self.nodes = 0
         self.next_fid = 1
         self.inlined: List[str] = []
@@ -166,7 +173,11 @@ class Builder:
             return True
         if k == "mcall" and str(e.get("def", "")).startswith("phf::") and e.get("name") == "get":
             return True
+        if k == "mcall" and e.get("def") == "core::str::<impl str>::strip_prefix":
+            return True
         if k == "bin" and e.get("op") in ("&&", "||"):
+            return True
+        if k == "index":
             return True
         for key, v in e.items():
             if key in ("ty", "at", "pat", "fa"):
@@ -216,6 +227,83 @@ class Builder:
             return self.roles.get(v["param"])
         return None
 
+    @staticmethod
+    def suffix_of(v: Any) -> Optional[str]:
+        """p when v denotes `s` with its prefix p removed (bound by `Some(rest) = s.strip_prefix(p)`)."""
+        v = peel(v)
+        if isinstance(v, dict) and v.get("k") == "suffix":
+            return v["prefix"]
+        return None
+
+    def array_of(self, v: Any) -> Optional[dict]:
+        """The array literal a place expression denotes (directly, behind `&`, or through a const / static item)."""
+        for _ in range(6):
+            v = peel(v)
+            if not isinstance(v, dict):
+                return None
+            if v.get("k") == "array":
+                return v
+            if v.get("k") == "path" and str(v.get("dk", "")).startswith(("Const", "Static")):
+                it = self.items.get((v.get("written") or "").split("::")[-1])
+                if it is None or not it.get("body"):
+                    return None
+                v = it["body"]["tree"]
+                continue
+            if v.get("k") == "block" and all(s_.get("k") == "item" for s_ in v["stmts"]):
+                v = v.get("tail")
+                continue
+            return None
+        return None
+
+    def is_disc(self, v: Any) -> bool:
+        """`self as <int>` / `*self as <int>` (the discriminant of the receiver)."""
+        v = peel(v)
+        while isinstance(v, dict) and v.get("k") == "cast":
+            inner = peel(v.get("e"))
+            if self.role(inner) == "self":
+                return True
+            v = inner
+        return False
+
+    def int_value(self, v: Any) -> Optional[int]:
+        n = self.int_const(v)
+        if n is not None:
+            return n
+        v = peel(v)
+        if isinstance(v, dict) and v.get("k") == "bin" and v.get("op") in ("+", "-", "*", "/", "%", "<<", ">>", "&", "|", "^"):
+            a, b = self.int_value(v["l"]), self.int_value(v["r"])
+            if a is not None and b is not None:
+                return _arith(v["op"], a, b)
+        return None
+
+    def int_expr(self, v: Any) -> Optional[tuple]:
+        """An arithmetic expression over the integer input: ('n',) | ('k', c) | (op, l, r) | ('cast', ty, e)."""
+        v = peel(v)
+        if not isinstance(v, dict):
+            return None
+        if self.role(v) == "int":
+            return ("n",)
+        c = self.int_const(v)
+        if c is not None:
+            return ("k", c)
+        if v.get("k") == "cast":
+            if self.role(peel(v.get("e"))) == "self":
+                return ("cast", str(v.get("ty") or ""), ("n",))      # n = the discriminant of the receiver
+            inner = self.int_expr(v.get("e"))
+            if inner is None:
+                return None
+            return ("cast", str(v.get("ty") or ""), inner)
+        if v.get("k") == "bin" and v.get("op") in ("+", "-", "*", "/", "%", "<<", ">>", "&", "|", "^") and not v.get("overloaded"):
+            a, b = self.int_expr(v["l"]), self.int_expr(v["r"])
+            if a is not None and b is not None and (a != ("k", a[-1]) or b != ("k", b[-1]) or True):
+                return (v["op"], a, b)
+        if v.get("k") == "mcall" and v.get("name") in ("wrapping_sub", "wrapping_add", "saturating_sub", "saturating_add") and len(v.get("args", [])) == 1:
+            a, b = self.int_expr(v["recv"]), self.int_expr(v["args"][0])
+            ty = (v.get("recv_ty") or "").lstrip("&")
+            if a is not None and b is not None and ty:
+                return (v["name"], ty, a, b)
+        return None
+
     def first_of(self, v: Any) -> Optional[str]:
         """'byte' / 'char' when v is `s.bytes().next()`, `s.as_bytes().first()`, `s.as_bytes().get(0)` / `s.chars().next()`."""
         v = peel(v)
@@ -251,6 +339,13 @@ class Builder:
     def is_strlen(self, v: Any) -> bool:
         v = peel(v)
         return isinstance(v, dict) and v.get("k") == "mcall" and v.get("def") == STR_LEN and self.role(v["recv"]) == "str"
+
+    def suffix_len(self, v: Any) -> Optional[int]:
+        """byte length of the stripped prefix when v is `rest.len()` for a suffix `rest`"""
+        v = peel(v)
+        if isinstance(v, dict) and v.get("k") == "mcall" and v.get("def") == STR_LEN and self.suffix_of(v["recv"]) is not None:
+            return len(self.suffix_of(v["recv"]).encode("utf-8"))
+        return None
 
     def int_const(self, v: Any) -> Optional[int]:
         v = peel(v)
@@ -328,6 +423,41 @@ class Builder:
         tgt = self._inline_target(node)
         if tgt is not None:
             return self.inline(tgt, node, fr, kont)
+        if k == "bin" and node.get("op") in ("==", "!=", "<", "<=", ">", ">=") and not node.get("overloaded"):
+            la, lb = self.int_value(node["l"]), self.int_value(node["r"])
+            if la is not None and lb is not None:
+                op = node["op"]
+                val = (la != lb) if op == "!=" else _cmp(la, op, lb)
+                return kont({"k": "lit", "ty": "bool", "v": bool(val)}, fr)
+        if k == "index":
+            arr = self.array_of(node["e"])
+            if arr is not None:
+                n = self.int_value(node["idx"])
+                if n is not None:
+                    if 0 <= n < len(arr["elems"]):
+                        return self.build(arr["elems"][n], fr, kont) if self.has_cf(arr["elems"][n]) else kont(arr["elems"][n], fr)
+                    return Leaf(node, fr.vpats, "index %d out of bounds of an array of %d" % (n, len(arr["elems"])), fr.effects)
+                ie = self.int_expr(node["idx"])
+                if ie is not None and "self" in self.roles.values() and self.discs is not None and _mentions_n(ie):
+                    # ARR[f(self as <int>)]: one branch per variant, the index computed from rustc's discriminant
+                    tree: Any = Leaf(node, fr.vpats, "no arm matches", fr.effects)
+                    for vn, dv in reversed(list(self.discs.items())):
+                        ix = eval_int_expr(ie, dv)
+                        # no pattern names the variant here: a synthetic one (no bindings) stands for "self is this variant"
+                        f1 = fr.with_vpat(H.VPat(self.adt, vn, "unit", [], True, {"k": "ppath", "path": {"k": "path", "variant": vn, "adt": self.adt}, "synthetic": True}))
+                        if 0 <= ix < len(arr["elems"]):
+                            t = kont(arr["elems"][ix], f1)
+                        else:
+                            t = Leaf(node, f1.vpats, "index %d (variant %s) out of bounds of an array of %d" % (ix, vn, len(arr["elems"])), fr.effects)
+                        tree = self.br(("var", vn), t, tree, None)
+                    return tree
+                if ie is not None and "int" in self.roles.values():
+                    # ARR[f(n)] for the integer input n: one branch per element, out of bounds otherwise
+                    tree = Leaf(node, fr.vpats, "index out of bounds of an array of %d" % len(arr["elems"]), fr.effects)
+                    for i in reversed(range(len(arr["elems"]))):
+                        tree = self.br(("intx", ie, "==", i), kont(arr["elems"][i], fr), tree, None)
+                    return tree
+            return kont(node, fr)
         if k == "mcall":
             d = str(node.get("def", ""))
             recv = H.strip(node["recv"])
@@ -341,6 +471,11 @@ class Builder:
                     return kont({"k": "call", "f": co[0], "args": [inner]}, fr)
                 if isinstance(recv, dict) and recv.get("k") == "path" and recv.get("def") == NONE:
                     return kont(recv, fr)
+            # s.strip_prefix("lit") -> Option<suffix of s>
+            if d == "core::str::<impl str>::strip_prefix" and self.role(recv) == "str" and len(node["args"]) == 1:
+                a0 = peel(node["args"][0])
+                if isinstance(a0, dict) and a0.get("k") == "lit" and a0.get("ty") in ("str", "char") and a0.get("v"):
+                    return kont({"k": "optsuffix", "prefix": a0["v"]}, fr)
             # phf::Map::get(STATIC, s)
             if node["name"] == "get" and d.startswith("phf::") and len(node["args"]) == 1 and self.role(node["args"][0]) == "str":
                 return self.phf_get(node, fr, kont)
@@ -453,6 +588,8 @@ class Builder:
             if v0.get("k") == "un" and v0.get("op") == "!":
                 return self.cond_value(v0["e"], fr, fk, tk, src)
             at = self.atom_of(v0)
+            if at is not None and at[0][0] == "const":
+                return tk(fr) if (at[0][1] == at[1]) else fk(fr)
             if at is not None:
                 atom, pos = at
                 if atom[0] == "range":
@@ -474,14 +611,28 @@ class Builder:
                 o = _flip(op) if flip else op
                 if self.role(a) == "str" and self.str_const(b) is not None and op in ("==", "!="):
                     return (("seq", self.str_const(b)), op == "==")
+                if self.suffix_of(a) is not None and self.str_const(b) is not None and op in ("==", "!="):
+                    return (("seq", self.suffix_of(a) + self.str_const(b)), op == "==")
                 if self.is_strlen(a):
                     n = self.int_const(b)
                     if n is not None:
                         return _cmp_atom("slen", o, n)
+                if self.suffix_len(a) is not None:
+                    n = self.int_const(b)
+                    if n is not None:
+                        return _cmp_atom("slen", o, n + self.suffix_len(a))
                 if self.role(a) == "int":
                     n = self.int_const(b)
                     if n is not None:
                         return _cmp_atom("int", o, n)
+            la, lb = self.int_value(l), self.int_value(r)
+            if la is not None and lb is not None:
+                return (("const", _cmp(la, op if op != "!=" else "==", lb) != (op == "!=")), True)
+            ea, eb = self.int_expr(l), self.int_expr(r)
+            if ea is not None and eb is not None and (_mentions_n(ea) or _mentions_n(eb)):
+                if op == "!=":
+                    return (("intx", ("-", ea, eb), "==", 0), False)
+                return (("intx", ("-", ea, eb), op, 0), True)
             return None
         if k == "mcall":
             d = v.get("def")
@@ -490,6 +641,8 @@ class Builder:
                 for x, y in ((a, b), (b, a)):
                     if self.role(x) == "str" and self.str_const(y) is not None:
                         return (("sci", self.str_const(y)), True)
+                    if self.suffix_of(x) is not None and self.str_const(y) is not None:
+                        return (("scisuf", self.suffix_of(x), self.str_const(y)), True)
                 return None
             if d == STR_IS_EMPTY and self.role(v["recv"]) == "str":
                 return (("slen", "==", 0), True)
@@ -548,10 +701,29 @@ class Builder:
             return out
         role = self.role(v)
         pv = peel(v)
+        if k in ("plit", "ppath") and role != "int" and not self.is_strlen(pv):
+            n_pat = H.lit_value(p["lit"], "int") if k == "plit" else self.int_const(p["path"])
+            if n_pat is not None:
+                ie0 = self.int_expr(pv) if ("self" in self.roles.values() and self.discs is not None) else None
+                if ie0 is not None and _mentions_n(ie0):
+                    hits = [vn for vn, dv in self.discs.items() if eval_int_expr(ie0, dv) == n_pat]
+                    out = fk(fr)
+                    for vn in reversed(hits):
+                        out = self.br(("var", vn), tk(fr), out, p)
+                    return out
+                nv = self.int_value(pv)
+                if nv is not None:
+                    return tk(fr) if nv == n_pat else fk(fr)
+                ie = self.int_expr(pv)
+                if ie is not None and _mentions_n(ie):
+                    return self.br(("intx", ie, "==", n_pat), tk(fr), fk(fr), p)
         if k == "plit":
             lit = p["lit"]
             if role == "str" and lit.get("ty") == "str":
                 return self.br(("seq", lit["v"]), tk(fr), fk(fr), p)
+            if self.suffix_of(pv) is not None and lit.get("ty") == "str":
+                # on this path s starts with the prefix: rest == "lit"  <=>  s == prefix + "lit"
+                return self.br(("seq", self.suffix_of(pv) + lit["v"]), tk(fr), fk(fr), p)
             n = H.lit_value(lit, "int")
             if n is not None and (role == "int" or self.is_strlen(pv)):
                 return self.br(("int" if role == "int" else "slen", "==", n), tk(fr), fk(fr), p)
@@ -584,6 +756,14 @@ class Builder:
             if role == "self":
                 f1 = fr.with_vpat(vp)
                 return self.br(("var", vp.variant), tk(f1), fk(fr), p)
+            if isinstance(pv, dict) and pv.get("k") == "optsuffix" and pdef in (SOME, NONE):
+                pre = pv["prefix"]
+                if pdef == NONE:
+                    return self.br(("spre", pre), fk(fr), tk(fr), p)
+                subs = vp.subs if vp.shape == "tuple" else []
+                if len(subs) != 1:
+                    raise Unrecognised("constructor pattern arity", p)
+                return self.br(("spre", pre), self.match_pat(subs[0], {"k": "suffix", "prefix": pre}, fr, tk, fk), fk(fr), p)
             fo = self.first_of(pv)
             if fo is not None and pdef in (SOME, NONE):
                 if pdef == NONE:
@@ -741,6 +921,82 @@ def _cmp_atom(subject: str, op: str, n: int) -> Tuple[tuple, bool]:
     return ((subject, op, n), True)
 
 
+def _arith(op: str, a: int, b: int) -> Optional[int]:
+    try:
+        if op == "+":
+            return a + b
+        if op == "-":
+            return a - b
+        if op == "*":
+            return a * b
+        if op == "/":
+            return int(a / b) if b else None       # Rust: truncation towards zero
+        if op == "%":
+            return a - b * int(a / b) if b else None
+        if op == "<<":
+            return a << b
+        if op == ">>":
+            return a >> b
+        if op == "&":
+            return a & b
+        if op == "|":
+            return a | b
+        if op == "^":
+            return a ^ b
+    except (ValueError, OverflowError):
+        return None
+    return None
+
+
+def _mentions_n(e: tuple) -> bool:
+    if e == ("n",):
+        return True
+    return any(isinstance(x, tuple) and _mentions_n(x) for x in e[1:])
+
+
+def _wrap(ty: str, v: int) -> int:
+    import re as _re
+    m = _re.match(r"^([iu])(8|16|32|64|128|size)$", ty)
+    if not m:
+        return v
+    bits = 64 if m.group(2) == "size" else int(m.group(2))
+    v &= (1 << bits) - 1
+    if m.group(1) == "i" and v >= 1 << (bits - 1):
+        v -= 1 << bits
+    return v
+
+
+def _bounds(ty: str):
+    import re as _re
+    m = _re.match(r"^([iu])(8|16|32|64|128|size)$", ty)
+    bits = 64 if m.group(2) == "size" else int(m.group(2))
+    return (0, (1 << bits) - 1) if m.group(1) == "u" else (-(1 << (bits - 1)), (1 << (bits - 1)) - 1)
+
+
+def eval_int_expr(e: tuple, n: int) -> int:
+    """Value of an arithmetic expression over the integer input at n (wrapping casts and the explicit wrapping_* /
+    saturating_* methods follow Rust; plain operators are evaluated over the integers, i.e. assuming no overflow panic)."""
+    t = e[0]
+    if t == "n":
+        return n
+    if t == "k":
+        return e[1]
+    if t == "cast":
+        return _wrap(e[1], eval_int_expr(e[2], n))
+    if t in ("wrapping_sub", "wrapping_add"):
+        a, b = eval_int_expr(e[2], n), eval_int_expr(e[3], n)
+        return _wrap(e[1], a - b if t == "wrapping_sub" else a + b)
+    if t in ("saturating_sub", "saturating_add"):
+        a, b = eval_int_expr(e[2], n), eval_int_expr(e[3], n)
+        lo, hi = _bounds(e[1])
+        return max(lo, min(hi, a - b if t == "saturating_sub" else a + b))
+    a, b = eval_int_expr(e[1], n), eval_int_expr(e[2], n)
+    r = _arith(t, a, b)
+    if r is None:
+        raise Unrecognised("arithmetic on the integer input is undefined at %d" % n)
+    return r
+
+
 def _parse_int(s: Any) -> Optional[int]:
     if isinstance(s, int):
         return s
@@ -808,7 +1064,7 @@ def _slots(e: dict) -> list:
     if k == "bin":
         return [("l", None), ("r", None)]
     if k == "index":
-        return [(key, None) for key in ("e", "base", "idx", "index") if isinstance(e.get(key), dict)]
+        return [("e", None), ("idx", None)]
     raise Unrecognised("control flow inside `%s` is not normalised" % k, e)
 
 
@@ -892,11 +1148,15 @@ def holds(atom: tuple, rep: dict) -> bool:
             return _cmp(rep["int"], atom[1], atom[2])
         if k == "is":
             return rep["is"][atom[1]] == atom[2]
+        if k == "intx":
+            return _cmp(eval_int_expr(atom[1], rep["int"]), atom[2], atom[3])
         if k == "sb0":
             b = rep["s"].encode("utf-8")
             return bool(b) and b[0] == atom[1]
         if k == "spre":
             return rep["s"].startswith(atom[1])
+        if k == "scisuf":
+            return rep["s"].startswith(atom[1]) and ascii_fold(rep["s"][len(atom[1]):]) == ascii_fold(atom[2])
     except KeyError:
         raise Unrecognised("the function branches on %s, which is not an input of the table being extracted" % (atom,))
     raise Unrecognised("unknown atom %r" % (atom,))
@@ -979,6 +1239,13 @@ def string_reps(ats: List[tuple], extra_lits: List[str] = ()) -> List[Tuple[str,
     in either sense -- the atoms then depend on len(s) only: one representative per length segment between the constants
     (k-1, k, k+1 for every constant and every literal length, 0, and max+1). Returns (kind, string)."""
     lits: List[str] = []
+    ats = list(ats)
+    for a in list(ats):
+        if a[0] == "scisuf":
+            # prefix compared exactly, rest ignoring case: the whole string is a member of the fold class of prefix+lit,
+            # and the prefix is a case-sensitive prefix test
+            ats.append(("sci", a[1] + a[2]))
+            ats.append(("spre", a[1]))
     for a in ats:
         if a[0] in ("seq", "sci") and a[1] not in lits:
             lits.append(a[1])
@@ -1026,16 +1293,31 @@ def string_reps(ats: List[tuple], extra_lits: List[str] = ()) -> List[Tuple[str,
                 prefixes.append(c)
     if prefixes:
         plen = max(len(q) for q in prefixes)
-        if plen > 4:
-            raise Unrecognised("prefix test longer than 4 characters")
         for fold, ls in classes.items():
             base = ls[0]
             head = [i for i, c in enumerate(base[:plen]) if c.isascii() and c.isalpha()]
             tail = [i for i, c in enumerate(base) if i >= plen and c.isascii() and c.isalpha()]
-            for mask in range(1 << len(head)):
-                cs = list(base)
-                for j, i in enumerate(head):
-                    cs[i] = cs[i].upper() if (mask >> j) & 1 else cs[i].lower()
+            if len(head) <= 6:
+                # every case pattern of the letters a prefix test can see
+                heads = []
+                for mask in range(1 << len(head)):
+                    cs = list(base)
+                    for j, i in enumerate(head):
+                        cs[i] = cs[i].upper() if (mask >> j) & 1 else cs[i].lower()
+                    heads.append(cs)
+            else:
+                # long prefixes: the members that agree exactly with each tested prefix, and members that differ from it in
+                # its first / last letter (the tests are exact prefix comparisons, so these are the cells they can separate)
+                heads = [list(base), [c.swapcase() if c.isascii() else c for c in base]]
+                for q in prefixes:
+                    if ascii_fold(base[:len(q)]) == ascii_fold(q):
+                        heads.append(list(q + base[len(q):]))
+                        ql = [i for i, c in enumerate(q) if c.isascii() and c.isalpha()]
+                        for i in (ql[:1] + ql[-1:]):
+                            h2 = list(q + base[len(q):])
+                            h2[i] = h2[i].swapcase()
+                            heads.append(h2)
+            for cs in heads:
                 cands = ["".join(cs)]
                 if tail:
                     for flip in (tail[:1], tail, tail[-1:]):
@@ -1096,11 +1378,50 @@ def _char_with_first_byte(b: int) -> Optional[str]:
     return None
 
 
+def _consts_of(e: tuple, acc: set):
+    if e[0] == "k":
+        acc.add(e[1])
+    for x in e[1:]:
+        if isinstance(x, tuple):
+            _consts_of(x, acc)
+
+
 def int_reps(ats: List[tuple], extra: List[int] = (), lo: Optional[int] = None, hi: Optional[int] = None) -> List[int]:
+    """Representatives for a function of one integer. Comparison atoms `n <op> k` split the line at their constants (k-1, k, k+1
+    suffice). Atoms over arithmetic of n (`n / 32 == k`, `n.wrapping_sub(a) > b`, `n as u8 == k`) are not monotone in general:
+    then the whole domain is enumerated when it is small (8 / 16 bit types, or the window the caller gives), and otherwise a
+    window around every constant and every product / sum of two constants plus the type's extremes -- stated as a bound."""
     ks = set(extra)
+    arith = False
     for a in ats:
         if a[0] == "int":
             ks.add(a[2])
+        if a[0] == "intx":
+            arith = True
+            acc: set = set()
+            _consts_of(a[1], acc)
+            ks.add(a[3])
+            ks |= acc
+            for x in list(acc):
+                for y in list(acc):
+                    if abs(x * y) < (1 << 70):
+                        ks.add(x * y)
+                        ks.add(x + y)
+                        ks.add(x - y)
+    if arith:
+        if lo is not None and hi is not None and hi - lo <= 70000:
+            return list(range(lo, hi + 1))
+        out = set()
+        for k in ks:
+            for d in range(-70, 71):
+                out.add(k + d)
+        for d in range(0, 2100):
+            out.add(d)
+        if lo is not None:
+            out |= {lo, lo + 1}
+        if hi is not None:
+            out |= {hi, hi - 1}
+        return sorted(x for x in out if (lo is None or x >= lo) and (hi is None or x <= hi))
     out = set()
     for k in ks:
         for d in (-1, 0, 1):
